@@ -438,6 +438,11 @@ class ConfigParser(object):
       # e.g. text before the first section header, unclosed section header or lines that are not 'key : value' pairs
       raise ConfigParserException("Could not parse configuration file: {}".format(e.message))
 
+    # Blanks around a section name are not part of it ('[Pair ]' in a file is [Pair]): the same holds for the
+    # section names of overrides and additions ('--add-item "Pair :A-B=..."' used to create a separate, ignored, section 'Pair ').
+    overrides = [o._replace(section = o.section.strip()) for o in overrides]
+    additional = [o._replace(section = o.section.strip()) for o in additional]
+
     # Process overrides
     for override in overrides:
       if not cp.has_option(override.section, override.key):
